@@ -1233,8 +1233,9 @@ static int ServerHelloExt(ssl_t *ssl, unsigned short extType, unsigned short ext
         psTraceInfo("Allowing unsolicited elliptic_point_format extension\n");
         rc = 0;
 #  endif
-        if (*c++ != (extLen - 1))
+        if (extLen < 1 || *c++ != (extLen - 1))
         {
+            /* (an empty extension has no list length byte to read) */
             ssl->err = SSL_ALERT_HANDSHAKE_FAILURE;
             psTraceErrr("Server sent bad ECPointFormatList\n");
             return MATRIXSSL_ERROR;
